@@ -27,13 +27,6 @@ private theorem asUsize_nat (n : Nat) (h : n < 2 ^ 63) : asUsize (n : Int) = n :
 private theorem intLen_lt {n : Nat} (h : IntLen n) : n < 2 ^ 63 := by
   rcases h with rfl | rfl | rfl | rfl <;> decide
 
-private theorem intFromSlice_of_len (n : Nat) (hn : IntLen n) (bs : Bytes) (hl : bs.length = n)
-    (e : Endianness) (s : Sign) : intFromSlice bs e s = .ok (intOfBytes n bs e s) := by
-  rcases hn with rfl | rfl | rfl | rfl <;> simp only [intFromSlice, hl]
-
-private theorem image_length (n : Nat) (e : Endianness) (v : Int) : (image n e v).length = n := by
-  cases e <;> simp [image]
-
 /-! ## 1. The image written is the two's-complement image -/
 
 /-- **int_image**: for every supported length, byte order, sign and every `i64` value,
